@@ -18,6 +18,8 @@ pub enum Cause {
     BadArgs(u8), MissingInput, MissingKeyring, KeyringEnvUnset, MalformedKeyring(u8), KeyringNotUtf8, UnknownRecipient, UnknownSender, NoPrivateKey, WrongPassword,
     EnvPassUnset, NoTerminal, RefusedKeyExchange(u8), BadChecksumKey, SameInOut,
     WrongHeader(u8), CorruptHeader(u8), ShortHeader(u8), WrongRecipient, CorruptFirstChunk(u8), TruncatedFirstChunk(u8), LaterChunk { j: u8, truncate: bool }, InvalidName(u8), TrailingData(u8),
+    /// the password is typed at a terminal (pseudo-terminal) instead of coming from the environment; several lines are available
+    TypedLaterChunk { j: u8 }, TypedWrongPassword, TypedFirstChunk,
 }
 #[derive(Clone, Debug, Serialize, Deserialize)]
 pub struct Case { pub cmd: Command, pub cause: Cause, pub prior: bool, pub inst: u64 }
@@ -32,9 +34,9 @@ pub fn applicable(cmd: Command) -> Vec<Cause> {
     let mut v = Vec::new();
     match cmd {
         Encrypt => { for i in 0..4 { v.push(BadArgs(i)); } v.extend([MissingInput, MissingKeyring, KeyringEnvUnset, KeyringNotUtf8, UnknownRecipient, UnknownSender, NoPrivateKey, WrongPassword, EnvPassUnset, NoTerminal, BadChecksumKey, SameInOut]); for i in 0..4 { v.push(MalformedKeyring(i)); } for i in 0..14 { v.push(RefusedKeyExchange(i)); } }
-        Decrypt => { for i in 0..4 { v.push(BadArgs(i)); } v.extend([MissingInput, MissingKeyring, KeyringEnvUnset, KeyringNotUtf8, UnknownRecipient, NoPrivateKey, WrongPassword, EnvPassUnset, NoTerminal, WrongRecipient, SameInOut]); for i in 0..4 { v.push(MalformedKeyring(i)); } for i in 0..5 { v.push(WrongHeader(i)); } for i in 0..6 { v.push(CorruptHeader(i)); } for i in 0..3 { v.push(ShortHeader(i)); } for i in 0..4 { v.push(CorruptFirstChunk(i)); } for i in 0..3 { v.push(TruncatedFirstChunk(i)); } for j in 1..4 { v.push(LaterChunk { j, truncate: false }); v.push(LaterChunk { j, truncate: true }); } for i in 0..2 { v.push(TrailingData(i)); } }
+        Decrypt => { for i in 0..4 { v.push(BadArgs(i)); } v.extend([MissingInput, MissingKeyring, KeyringEnvUnset, KeyringNotUtf8, UnknownRecipient, NoPrivateKey, WrongPassword, EnvPassUnset, NoTerminal, WrongRecipient, SameInOut]); for i in 0..4 { v.push(MalformedKeyring(i)); } for i in 0..5 { v.push(WrongHeader(i)); } for i in 0..6 { v.push(CorruptHeader(i)); } for i in 0..3 { v.push(ShortHeader(i)); } for i in 0..4 { v.push(CorruptFirstChunk(i)); } for i in 0..3 { v.push(TruncatedFirstChunk(i)); } for j in 1..4 { v.push(LaterChunk { j, truncate: false }); v.push(LaterChunk { j, truncate: true }); } for i in 0..2 { v.push(TrailingData(i)); } for j in 1..4 { v.push(TypedLaterChunk { j }); } v.push(TypedFirstChunk); }
         PassEncrypt => { for i in 0..3 { v.push(BadArgs(i)); } v.extend([MissingInput, EnvPassUnset, NoTerminal, SameInOut]); }
-        PassDecrypt => { for i in 0..3 { v.push(BadArgs(i)); } v.extend([MissingInput, EnvPassUnset, NoTerminal, WrongPassword, SameInOut]); for i in 0..5 { v.push(WrongHeader(i)); } for i in 0..2 { v.push(CorruptHeader(i)); } for i in 0..3 { v.push(ShortHeader(i)); } for i in 0..4 { v.push(CorruptFirstChunk(i)); } for i in 0..3 { v.push(TruncatedFirstChunk(i)); } for j in 1..4 { v.push(LaterChunk { j, truncate: false }); v.push(LaterChunk { j, truncate: true }); } for i in 0..2 { v.push(TrailingData(i)); } }
+        PassDecrypt => { for i in 0..3 { v.push(BadArgs(i)); } v.extend([MissingInput, EnvPassUnset, NoTerminal, WrongPassword, SameInOut]); for i in 0..5 { v.push(WrongHeader(i)); } for i in 0..2 { v.push(CorruptHeader(i)); } for i in 0..3 { v.push(ShortHeader(i)); } for i in 0..4 { v.push(CorruptFirstChunk(i)); } for i in 0..3 { v.push(TruncatedFirstChunk(i)); } for j in 1..4 { v.push(LaterChunk { j, truncate: false }); v.push(LaterChunk { j, truncate: true }); } for i in 0..2 { v.push(TrailingData(i)); } for j in 1..4 { v.push(TypedLaterChunk { j }); } v.push(TypedWrongPassword); v.push(TypedFirstChunk); }
         KeyGenerate => { v.extend([BadArgs(0), BadArgs(1), EnvPassUnset, NoTerminal]); for i in 0..3 { v.push(InvalidName(i)); } }
     }
     v
@@ -82,6 +84,8 @@ pub fn check(c: &Case) -> CheckResult {
         LaterChunk { j, truncate } => { let j = *j as usize; let s = rec_start(j); let len = 32 + CHUNKS[j];
             if *truncate { input.truncate(s + sel % len); } else { let off = 8 + sel % (len - 8); input[s + off] ^= 1 << (sel % 8); }
             expect_prefix = Some(CHUNKS[..j].iter().sum()); }
+        TypedLaterChunk { j } => { let j = *j as usize; let st = rec_start(j); let len = 32 + CHUNKS[j]; let off = 16 + sel % (len - 16); input[st + off] ^= 1 << (sel % 8); expect_prefix = Some(CHUNKS[..j].iter().sum()); }
+        TypedFirstChunk => { let st = rec_start(0); input[st + 16 + sel % (16 + CHUNKS[0])] ^= 1 << (sel % 8); }
         TrailingData(i) => { input.extend_from_slice(&gen::bytes_from(c.inst, if *i == 0 { 1 } else { 1 + sel % 90 })); any_whole_chunk_prefix = true; }
         _ => {}
     }
@@ -102,7 +106,9 @@ pub fn check(c: &Case) -> CheckResult {
     };
     let mut env: Vec<(String, String)> = Vec::new();
     if matches!(c.cmd, Encrypt | Decrypt) && c.cause != KeyringEnvUnset { a.push("-k".into()); a.push(keyring_arg.into()); }
-    if c.cause != NoTerminal { a.push("--env-pass".into()); }
+    let typed = matches!(c.cause, TypedLaterChunk { .. } | TypedWrongPassword | TypedFirstChunk);
+    if typed && !cli::pty_available() { return ok(false, "skipped:no-pty"); }
+    if c.cause != NoTerminal && !typed { a.push("--env-pass".into()); }
     let right_pw = match c.cmd { Encrypt => id.alice.password.clone(), Decrypt => if c.cause == WrongRecipient { id.bob.password.clone() } else { id.bob.password.clone() }, KeyGenerate => "new key pw".into(), _ => PASS_PW.into() };
     if c.cause != EnvPassUnset { env.push(("KESTREL_PASSWORD".into(), if c.cause == WrongPassword { format!("{}x", right_pw) } else { right_pw })); }
     if let BadArgs(i) = &c.cause { match (c.cmd, i) {
@@ -116,11 +122,14 @@ pub fn check(c: &Case) -> CheckResult {
     let ar: Vec<&str> = a.iter().map(|s| s.as_str()).collect();
     let mut cmd = sb.cmd(&ar); cmd.env = env;
     if c.cmd == KeyGenerate { cmd.stdin = In::Bytes(name_line.into_bytes()); }
+    if typed { // the same line is available several times: a tool that asks again gets an answer again
+        let pw = cmd.env.iter().find(|(k, _)| k == "KESTREL_PASSWORD").map(|(_, v)| v.clone()).unwrap_or_default(); cmd.env.retain(|(k, _)| k != "KESTREL_PASSWORD");
+        cmd.pty_lines = Some(vec![if c.cause == TypedWrongPassword { format!("{}x", pw) } else { pw }; 4]); cmd.timeout_ms = 30_000; }
     let r = cmd.run();
     if std::env::var("KVERIF_DEBUG").is_ok() { eprintln!("DBG {:?} {:?} prior={} -> {:?} {}", c.cmd, c.cause, c.prior, r.code, r.stderr_s().replace('\n', " | ")); }
     ensure!(r.signal.is_none() && !r.timed_out, "command did not end normally: {}", r.describe());
     ensure!(r.code == Some(1), "a failing invocation ({:?} / {:?}) exited with {:?} instead of 1; stderr: {}", c.cmd, c.cause, r.code, r.stderr_s());
-    ensure!(r.stderr_s().lines().any(|l| l.starts_with("Error:")), "exit status 1 without an 'Error:' line: {:?}", r.stderr_s());
+    ensure!(r.stderr_s().lines().chain(r.stdout_s().lines()).any(|l| l.trim_start().starts_with("Error:")), "exit status 1 without an 'Error:' line: {:?} {:?}", r.stderr_s(), if typed { r.stdout_s() } else { String::new() });
     let after = sb.read(out_name);
     if any_whole_chunk_prefix {
         // bytes after the final chunk: the command fails (exit 1, checked above); what is at the output path is a prefix of the
